@@ -69,7 +69,7 @@ pub fn run(op: &str, args: &[&str]) -> Option<String> {
             }
             if let Some(k) = r0 {
                 let again = PrivateKey::try_from(&k.to_bytes()[..]).ok()?;
-                if again != k || k.as_bytes() != &k.to_bytes()[..] {
+                if again != k || k.as_bytes() != &k.to_bytes()[..] || PrivateKey::from_scalar(k.scalar) != k {
                     return Some("OK inconsistent".to_string());
                 }
             }
@@ -295,6 +295,9 @@ pub fn run(op: &str, args: &[&str]) -> Option<String> {
             };
             let (v, s) = (sk!(v), sk!(s));
             let idx = Index { major: i, minor: j };
+            if idx.is_zero() != (i == 0 && j == 0) || format!("{}", idx) != format!("{}/{}", i, j) || idx != (Index { major: i, minor: j }) {
+                return Some("ROUTE-MISMATCH Index::is_zero / Display / Eq".to_string());
+            }
             let kp = KeyPair { view: v, spend: s };
             let vp = ViewPair {
                 view: v,
